@@ -256,6 +256,10 @@ func (w *World) Do(c Call) error {
 		_, err = d.Readdir(-1)
 		_ = d.Close()
 		return err
+	case "Initialize":
+		root, err := w.Inst.FS.Initialize("/", os.ModePerm)
+		w.Inst.Root, w.Inst.InitErr = root, err
+		return err
 	case "Symlink":
 		l, ok := fs.(afero.Linker)
 		if !ok {
